@@ -515,19 +515,43 @@ fn as_x(v: &V) -> &N {
     }
 }
 
+/// The order of the real numbers two JSON numbers denote: integers (i64 / u64) are exact,
+/// doubles are exact rationals; a mixed pair is compared without rounding the integer.
+pub fn exact_num_cmp(x: &Number, y: &Number) -> std::cmp::Ordering {
+    use std::cmp::Ordering::*;
+    fn int_of(n: &Number) -> Option<i128> {
+        n.as_i64().map(|v| v as i128).or_else(|| n.as_u64().map(|v| v as i128))
+    }
+    fn int_vs_float(i: i128, f: f64) -> std::cmp::Ordering {
+        // |i| < 2^64; a double beyond +-2^65 decides by sign alone
+        if f >= 3.6893488147419103e19 {
+            return Less;
+        }
+        if f <= -3.6893488147419103e19 {
+            return Greater;
+        }
+        let t = f.trunc();
+        let ti = t as i128; // exact: |t| < 2^65
+        match i.cmp(&ti) {
+            Equal => {
+                let frac = f - t; // exact
+                if frac > 0.0 { Less } else if frac < 0.0 { Greater } else { Equal }
+            }
+            o => o,
+        }
+    }
+    match (int_of(x), int_of(y)) {
+        (Some(a), Some(b)) => a.cmp(&b),
+        (Some(a), None) => int_vs_float(a, num_f(y)),
+        (None, Some(b)) => int_vs_float(b, num_f(x)).reverse(),
+        (None, None) => num_f(x).partial_cmp(&num_f(y)).unwrap(),
+    }
+}
+
 /// total order used for sorting keys that are all numbers or all strings
 pub fn key_cmp(a: &Value, b: &Value) -> std::cmp::Ordering {
     match (a, b) {
-        (Value::Number(x), Value::Number(y)) => {
-            // ordering is exact (the tolerance of '==' does not apply to sort/max/min)
-            if let (Some(a), Some(b)) = (x.as_i64(), y.as_i64()) {
-                a.cmp(&b)
-            } else if let (Some(a), Some(b)) = (x.as_u64(), y.as_u64()) {
-                a.cmp(&b)
-            } else {
-                num_f(x).partial_cmp(&num_f(y)).unwrap()
-            }
-        }
+        (Value::Number(x), Value::Number(y)) => exact_num_cmp(x, y),
         // code-point order == byte order of UTF-8
         (Value::String(x), Value::String(y)) => {
             let xc: Vec<u32> = x.chars().map(|c| c as u32).collect();
